@@ -21,6 +21,8 @@ PROFILES = {
     'core': dict(),
     'core_flat': dict(depth=(1, 1)),
     'hier': dict(depth=(2, 3), regions=(1, 2)),
+    'hier_sparse': dict(depth=(3, 3), regions=(1, 2), nevents=(6, 6), sparse_events=True, sub_initial=0.8, states_per_region=(2, 2),
+                        row_weights=(0, 1, 1, 2, 2, 3)),
     'completion': dict(completion=0.6, state_internal=0.0, sm_internal=0.0, depth=(1, 2)),
     'completion_defer': dict(completion=0.6, deferral=1.0, state_internal=0.0, sm_internal=0.0, depth=(1, 1), regions=(2, 3), row_budget=14),
     'completion_sub': dict(completion=0.7, state_internal=0.0, sm_internal=0.0, depth=(2, 2), regions=(2, 3), row_budget=12, subs_per_level=(1, 2)),
@@ -46,17 +48,20 @@ PROFILES = {
     'events': dict(depth=(1, 2), regions=(1, 2), hierarchy_events=1.0, kleene=0.7, nevents=(4, 5), state_internal=0.3, sm_internal=0.0,
                    row_weights=(0, 1, 1, 2, 2, 3)),
     'flags': dict(flags=1.0, depth=(1, 3), state_internal=0.0, sm_internal=0.0, scripts=True),
-    'policy_after_entry': dict(policy='after_entry', flags=0.7, depth=(1, 3), pseudo=0.3, row_budget=12, state_internal=0.2, sm_internal=0.0, scripts=True),
-    'policy_after_action': dict(policy='after_action', flags=0.7, depth=(1, 3), pseudo=0.3, row_budget=12, state_internal=0.2, sm_internal=0.0, scripts=True),
-    'policy_after_exit': dict(policy='after_exit', flags=0.7, depth=(1, 3), pseudo=0.3, row_budget=12, state_internal=0.2, sm_internal=0.0, scripts=True),
-    'policy_before': dict(policy='before', flags=0.7, depth=(1, 3), pseudo=0.3, row_budget=12, state_internal=0.2, sm_internal=0.0, scripts=True),
-    'policy_default': dict(policy='default', flags=0.7, depth=(1, 3), pseudo=0.3, row_budget=12, state_internal=0.2, sm_internal=0.0, scripts=True),
+    'policy_after_entry': dict(action_none=0.4, guard_none=0.4, policy='after_entry', flags=0.7, depth=(1, 3), pseudo=0.3, row_budget=12, state_internal=0.2, sm_internal=0.0, scripts=True),
+    'policy_after_action': dict(action_none=0.4, guard_none=0.4, policy='after_action', flags=0.7, depth=(1, 3), pseudo=0.3, row_budget=12, state_internal=0.2, sm_internal=0.0, scripts=True),
+    'policy_after_exit': dict(action_none=0.4, guard_none=0.4, policy='after_exit', flags=0.7, depth=(1, 3), pseudo=0.3, row_budget=12, state_internal=0.2, sm_internal=0.0, scripts=True),
+    'policy_before': dict(action_none=0.4, guard_none=0.4, policy='before', flags=0.7, depth=(1, 3), pseudo=0.3, row_budget=12, state_internal=0.2, sm_internal=0.0, scripts=True),
+    'policy_default': dict(action_none=0.4, guard_none=0.4, policy='default', flags=0.7, depth=(1, 3), pseudo=0.3, row_budget=12, state_internal=0.2, sm_internal=0.0, scripts=True),
     'blocking': dict(blocking=1.0, depth=(1, 1), regions=(1, 3), flags=0.5, state_internal=0.0, sm_internal=0.0, completion=0.25, scripts=True),
     'queue': dict(scripts=True, depth=(1, 2), regions=(1, 2), completion=0.2, state_internal=0.2, sm_internal=0.0),
     'defer': dict(deferral=1.0, scripts=True, depth=(1, 1), regions=(1, 3), completion=0.0, state_internal=0.0, sm_internal=0.0),
     'defer_nested': dict(deferral=1.0, nested_deferral=True, scripts=True, depth=(2, 2), regions=(1, 2), completion=0.0, state_internal=0.0,
                          sm_internal=0.0, row_budget=12),
     'throw': dict(scripts=True, depth=(1, 2), regions=(1, 2), completion=0.2, state_internal=0.2, sm_internal=0.0),
+    'throw_after_action': dict(action_none=0.4, guard_none=0.4, scripts=True, depth=(1, 2), regions=(1, 2), completion=0.2, state_internal=0.2, sm_internal=0.0, policy='after_action'),
+    'throw_after_exit': dict(action_none=0.4, guard_none=0.4, scripts=True, depth=(1, 2), regions=(1, 2), completion=0.2, state_internal=0.2, sm_internal=0.0, policy='after_exit'),
+    'throw_before': dict(action_none=0.4, guard_none=0.4, scripts=True, depth=(1, 2), regions=(1, 2), completion=0.2, state_internal=0.2, sm_internal=0.0, policy='before'),
 }
 
 
@@ -105,6 +110,8 @@ class Gen:
         return [k, self.expr(depth - 1), self.expr(depth - 1)]
 
     def actions(self):
+        if self.p.get('action_none', 0) > 0 and self.r.random() < self.p['action_none']:
+            return []           # balances the four row kinds (row, a_row, g_row, _row have separate code in back / back11)
         n = self.r.choice([0, 1, 1, 1, 2, 3, 2][: self.p['action_max'] + 3])
         out = []
         for _ in range(n):
@@ -140,6 +147,13 @@ class Gen:
             for k, s in enumerate(reg):
                 sub_slots.append((ri_, k, s))
         r.shuffle(sub_slots)
+        if p.get('sub_initial', 0) > 0 and r.random() < p['sub_initial']:
+            sub_slots.sort(key=lambda t: t[1] != 0)      # submachines as initial states: the whole depth is active after start()
+        # sparse profiles: a machine's own rows use only a few of the event types, so an event may be known to a nested level
+        # and to the root but not to the level in between
+        evs = events
+        if p.get('sparse_events'):
+            evs = sorted(r.sample(events, min(len(events), r.randint(2, 3))))
         subs = set()
         for (ri_, k, s) in sub_slots[:nsub_left]:
             subs.add(s)
@@ -157,7 +171,7 @@ class Gen:
         pairs = []
         for ri_, reg in enumerate(m['regions']):
             for s in reg:
-                for e in events:
+                for e in evs:
                     pairs.append((ri_, s, e))
         r.shuffle(pairs)
         rows = []
@@ -185,16 +199,16 @@ class Gen:
         for ri_, reg in enumerate(m['regions']):
             for s in reg[1:]:
                 if not any(rw.get('tgt') == s for rw in rows) and len(rows) < MAX_ROWS:
-                    rows.append(dict(src=reg[0], ev=r.choice(events), tgt=s, guard=None, actions=self.actions()))
+                    rows.append(dict(src=reg[0], ev=r.choice(evs), tgt=s, guard=None, actions=self.actions()))
         r.shuffle(rows)
         m['table'] = rows
         # state-internal tables
         for s, st in m['states'].items():
             if st['kind'] == 'simple' and r.random() < p['state_internal']:
-                st['internal'] = [dict(ev=r.choice(events), guard=self.guard(), actions=self.iactions())
+                st['internal'] = [dict(ev=r.choice(evs), guard=self.guard(), actions=self.iactions())
                                   for _ in range(r.choice([1, 1, 2]))]
         if r.random() < p['sm_internal']:
-            m['internal'] = [dict(ev=r.choice(events), guard=self.guard(), actions=self.iactions())
+            m['internal'] = [dict(ev=r.choice(evs), guard=self.guard(), actions=self.iactions())
                              for _ in range(r.choice([1, 1, 2]))]
         if p['completion'] > 0:
             self.add_completion(m)
